@@ -401,6 +401,11 @@ fn rand_text(rng: &mut ChaCha8Rng, specials: &[String], maxlen: usize) -> String
     ];
     let n = rng.random_range(0..=maxlen);
     let mut s = String::new();
+    // one text in sixty changes the byte width of its characters at every position, a few hundred times
+    if rng.random_bool(1.0 / 60.0) {
+        let m = rng.random_range(260..=340);
+        return (0..m).map(|k| if k % 9 == 8 { " " } else if k % 2 == 0 { "a" } else { ["ä", "字", "e\u{0301}", "😀"][k % 4] }).collect();
+    }
     // one text in eight is pure ASCII with CR LF (one character in grapheme mode): byte-wise fast paths
     if rng.random_bool(0.125) {
         let ascii = ["a", "b", " ", "\r\n", "\r\n", "\n", "\r", "<", "\t", "0"];
